@@ -37,7 +37,7 @@ META = dict(
 )
 
 FIELDS = ("hostkey_bit", "f_bit", "f_other", "sig_bit", "sigblob_bit", "sig_lenprefix", "sig_name", "swap_same",
-          "swap_type")
+          "swap_type", "f_reencode", "hostkey_reencode", "sig_reencode")
 ALLNAMES = kexlab.HOSTALGS
 
 
@@ -101,9 +101,46 @@ def other_public(kex, body, rng):
     return k.public_key().public_bytes(serialization.Encoding.Raw, serialization.PublicFormat.Raw)
 
 
+def applicable(field, kex, hostalg):
+    """Re-encodings (same value, other bytes) exist only for some encodings."""
+    if field == "f_reencode":
+        return not kex.startswith("curve25519")
+    if field in ("hostkey_reencode", "sig_reencode"):
+        return hostalg != "ssh-ed25519"
+    return True
+
+
+def compress_point(point):
+    """SEC1 compressed form (02/03 || X) of an uncompressed point (04 || X || Y)."""
+    if point[:1] != b"\x04" or len(point) % 2 != 1:
+        raise ValueError("not an uncompressed point")
+    n = (len(point) - 1) // 2
+    return bytes([2 + (point[-1] & 1)]) + point[1:1 + n]
+
+
 def corrupt(field, kex, hostalg, payload, rng):
     """Return the reply payload with exactly one field changed."""
     ks, f, sig = kexlab.parse_reply(payload)
+    if field == "f_reencode":
+        # same value, different bytes: non-minimal mpint / compressed point
+        f = b"\x00" + f if kexlab.is_dh(kex) else compress_point(f)
+        return kexlab.build_reply(payload[0], ks, f, sig)
+    if field == "hostkey_reencode":
+        parts, _ = sshsig.read_strings(ks)
+        if parts[0] == b"ssh-rsa":
+            parts[2] = b"\x00" + parts[2]
+        else:
+            parts[2] = compress_point(parts[2])
+        ks = b"".join(sshsig.s(x) for x in parts)
+        return kexlab.build_reply(payload[0], ks, f, sig)
+    if field == "sig_reencode":
+        name, body = sshsig.parse_sig(sig)
+        if name.startswith("ecdsa"):
+            (r, sv), _ = sshsig.read_strings(body, 2)
+            body = sshsig.s(b"\x00" + r) + sshsig.s(sv)
+        else:
+            body = b"\x00" + body
+        return kexlab.build_reply(payload[0], ks, f, sshsig.s(name) + sshsig.s(body))
     if field == "hostkey_bit":
         ks = flip_bit(rng, ks, prefix_offsets(ks))
     elif field == "f_bit":
@@ -170,6 +207,40 @@ def encoding_only(orig, new):
         return orig != new and semantic(orig) == semantic(new)
     except Exception:
         return False
+
+
+def strictly_wellformed(sig):
+    """Every length prefix of the signature blob (and of an ECDSA (r, s) pair) matches the data exactly."""
+    try:
+        parts, rest = sshsig.read_strings(sig)
+        if rest or len(parts) != 2:
+            return False
+        if parts[0].startswith(b"ecdsa-"):
+            inner, rest = sshsig.read_strings(parts[1])
+            return not rest and len(inner) == 2
+        return True
+    except Exception:
+        return False
+
+
+def accepted_mechanism(kex, orig, new):
+    """Why could an altered reply be accepted?  Returns a mechanism signature or None (= no benign reading:
+    the values that are verified really differ)."""
+    try:
+        ks0, f0, sig0 = kexlab.parse_reply(orig)
+        ks1, f1, sig1 = kexlab.parse_reply(new)
+    except Exception:
+        return None
+    if ks0 == ks1 and sig0 == sig1 and f0 != f1 and kexlab.is_dh(kex) and sshsig.to_int(f0) == sshsig.to_int(f1):
+        return ("client accepted a kex reply whose f was re-encoded as a non-minimal mpint of the same value "
+                "(exchange hash is computed over the decoded value)")
+    if ks0 == ks1 and f0 == f1 and sig0 != sig1 and encoding_only(orig, new):
+        if strictly_wellformed(sig1):
+            return ("client accepted a kex reply whose signature was re-encoded with a non-minimal mpint "
+                    "(same r, s)")
+        return ("client accepted a kex reply whose signature bytes were altered but decode to the same "
+                "signature (over-long length prefix tolerated)")
+    return None
 
 
 # --------------------------------------------------------------------------------
@@ -387,14 +458,12 @@ def corrupt_case(ctx, kex, hostalg, field, exchange, sample):
                 ctx.inconclusive("client neither aborted nor sent NEWKEYS within 120 s of a corrupted reply: %r" % desc)
                 return
         if later_newkeys:
-            if encoding_only(state["orig"], state["new"]):
-                # same K_S, same f, same algorithm name and same signature value once the strings are
-                # read the way Message.get_bytes reads them: only a length prefix was changed
-                ctx.count("accepted_with_altered_signature_encoding")
-                ctx.violation("client accepted a kex reply whose signature bytes were altered but decode to the same "
-                              "signature (over-long length prefix tolerated)",
-                              "a bit of a length prefix inside the reply's signature field was changed in transit and "
-                              "the client still completed the exchange", wit)
+            mech = accepted_mechanism(kex, state["orig"], state["new"])
+            if mech is not None:
+                # K_S, and the values of f and of the signature, are unchanged: only their encoding was altered
+                ctx.count("accepted_with_altered_encoding")
+                ctx.violation(mech, "the bytes of one reply field were changed in transit into another encoding of the "
+                              "same value and the client still completed the exchange", wit)
             else:
                 ctx.violation("client sent NEWKEYS after a corrupted kex reply (%s)" % field,
                               "the client answered a reply with an altered %s with NEWKEYS" % field, wit)
@@ -430,6 +499,10 @@ def run(ctx):
                 else:
                     plan = [(a, ex) for a in kexlab.HOSTALGS for ex in (0, 1, 2, 3)]
                 for alg, ex in plan:
+                    if not applicable(field, kex, alg):
+                        alg = "ecdsa-sha2-nistp256" if ctx.quick else None
+                    if alg is None or not applicable(field, kex, alg):
+                        continue
                     j += 1
                     if not ctx.mine(j):
                         continue
